@@ -643,6 +643,62 @@ class Nullness:
         return st
 
 
+_MC_MISSING = object()
+
+
+def module_const(mod, name, depth=0):
+    """Python value of a module-level constant: NAME = <literal>, one of
+    `A, B, C = range(3)` / `A, B = 1, 2`, or a tuple of such names
+    (`BOTH = (A, B)`), assigned once at module level and never declared
+    global in a function.  _MC_MISSING when it cannot be read."""
+    import ast as _ast
+    if depth > 4 or mod is None:
+        return _MC_MISSING
+    hits = []
+    for st in mod.tree.body:
+        if not isinstance(st, _ast.Assign):
+            continue
+        for t in st.targets:
+            if isinstance(t, _ast.Name) and t.id == name:
+                hits.append((st.value, None))
+            elif isinstance(t, (_ast.Tuple, _ast.List)):
+                for i, el in enumerate(t.elts):
+                    if isinstance(el, _ast.Name) and el.id == name:
+                        hits.append((st.value, (i, len(t.elts))))
+    if len(hits) != 1:
+        return _MC_MISSING
+    for x in _ast.walk(mod.tree):
+        if isinstance(x, _ast.Global) and name in x.names:
+            return _MC_MISSING
+    v, pos = hits[0]
+
+    def lit(x):
+        if isinstance(x, _ast.Constant):
+            return x.value
+        if isinstance(x, _ast.UnaryOp) and isinstance(x.op, _ast.USub) and \
+                isinstance(x.operand, _ast.Constant) and \
+                isinstance(x.operand.value, (int, float)):
+            return -x.operand.value
+        if isinstance(x, _ast.Name):
+            return module_const(mod, x.id, depth + 1)
+        if isinstance(x, (_ast.Tuple, _ast.List)):
+            vals = [lit(el) for el in x.elts]
+            if any(y is _MC_MISSING for y in vals):
+                return _MC_MISSING
+            return tuple(vals)
+        return _MC_MISSING
+    if pos is None:
+        return lit(v)
+    i, n = pos
+    if isinstance(v, (_ast.Tuple, _ast.List)) and len(v.elts) == n:
+        return lit(v.elts[i])
+    if isinstance(v, _ast.Call) and isinstance(v.func, _ast.Name) and \
+            v.func.id == 'range' and len(v.args) == 1 and \
+            isinstance(v.args[0], _ast.Constant) and v.args[0].value == n:
+        return i
+    return _MC_MISSING
+
+
 def _nullness_const(self, v, frame):
     """('c', repr) for a literal or a class constant spelt self.X / cls.X /
     Class.X; 'none' for None; otherwise None (not a known constant)"""
@@ -654,6 +710,18 @@ def _nullness_const(self, v, frame):
             isinstance(v.operand.value, (int, float)) and \
             not isinstance(v.operand.value, bool):
         return ('c', repr(-v.operand.value))
+    if isinstance(v, _ast.Name) and self.e is not None:
+        # a module-level constant (not a local / parameter of the function)
+        from ..model import walk_own as _wo
+        fn = frame.ctx.func
+        if v.id not in fn.params and not any(
+                isinstance(x, _ast.Name) and x.id == v.id and
+                isinstance(x.ctx, (_ast.Store, _ast.Del))
+                for x in _wo(fn.node)):
+            val = module_const(fn.module, v.id)
+            if val is not _MC_MISSING and not isinstance(val, tuple):
+                return 'none' if val is None else ('c', repr(val))
+        return None
     if isinstance(v, _ast.Attribute) and isinstance(v.value, _ast.Name) and \
             self.e is not None:
         fc = frame.ctx.func.cls
@@ -710,6 +778,18 @@ def _nullness_eval(self, t, frame, st):
         lv = self._value(t.left, frame, st)
         rt = t.comparators[0]
         if isinstance(op, (_ast.In, _ast.NotIn)):
+            if isinstance(rt, _ast.Name) and self.e is not None:
+                # a module-level tuple of constants
+                tv = module_const(frame.ctx.func.module, rt.id)
+                if isinstance(tv, tuple) and not any(
+                        isinstance(y, tuple) for y in tv):
+                    members = ['none' if y is None else ('c', repr(y))
+                               for y in tv]
+                    if lv is None or lv in ('obj', 'obj?'):
+                        return None
+                    r = lv in members
+                    return r if isinstance(op, _ast.In) else not r
+                return None
             if not isinstance(rt, (_ast.Tuple, _ast.List, _ast.Set)):
                 return None
             members = [self._const(x, frame) for x in rt.elts]
